@@ -36,7 +36,12 @@ GuardVecs ==
   Cross2(Encs, GuardNs(10485760), LAMBDA p, n : [op |-> "TextGuard", pkg |-> p[1], fn |-> p[2], n |-> n])
   \o Cross2(SubSeq(Decs, 1, 4), GuardNs((10485760 * 8 + 4) \div 5), LAMBDA p, n : [op |-> "TextGuard", pkg |-> p[1], fn |-> p[2], n |-> n])
   \o Cross2(SubSeq(Decs, 5, 6), GuardNs(((10485760 + 2) \div 3) * 4), LAMBDA p, n : [op |-> "TextGuard", pkg |-> p[1], fn |-> p[2], n |-> n])
-Vecs == ChunkVecs \o EncVecs \o DecValid \o DecCross \o DecMal \o MutVecs \o GuardVecs
+\* line breaks are skipped by the decoders but are bytes of the string: the size limit counts them
+GuardCRLF(decs, max) ==
+  Cross3(decs, << << max - 8, 8 >>, << max - 8, 9 >>, << max, 1 >>, << max - 16, 17 >>, << max - 16, 16 >> >>, << "end", "start", "middle" >>,
+         LAMBDA p, nk, pos : [op |-> "TextGuard", pkg |-> p[1], fn |-> p[2], n |-> nk[1], crlf |-> nk[2], crlfpos |-> pos])
+GuardCRLFVecs == GuardCRLF(SubSeq(Decs, 1, 4), (10485760 * 8 + 4) \div 5) \o GuardCRLF(SubSeq(Decs, 5, 6), ((10485760 + 2) \div 3) * 4)
+Vecs == GuardCRLFVecs \o ChunkVecs \o EncVecs \o DecValid \o DecCross \o DecMal \o MutVecs \o GuardVecs
 VARIABLE done
 Init == done = FALSE
 Next == ~done /\ ndJsonSerialize(OutFile, Vecs) /\ PrintT(<< "GENERATED", Len(Vecs) >>) /\ done' = TRUE
